@@ -210,12 +210,13 @@ def loop_variables_scoped(rng):
 
 def by_value_arguments(rng):
     kind = rng.choice(["map", "arr"])
+    empty = rng.random() < 0.35          # boundary: a collection with nothing in it is still passed / assigned by value
     if kind == "map":
-        a = val(rng, "map")
+        a = val(rng, "map") if not empty else ("map", [])
         mut = [asg(ix(L("c"), Sx(rng.choice(G.KEY_POOL))), val(rng)), ("unset", [ix(L("c"), Sx(rng.choice(G.KEY_POOL)))])]
         typ = rng.choice(["map", None])
     else:
-        a = ("arr", [val(rng, "int") for _ in range(rng.randint(1, 4))])
+        a = ("arr", [val(rng, "int") for _ in range(rng.randint(1, 4) if not empty else 0)])
         mut = [asg(ix(L("c"), I(1)), val(rng)), asg(ix(L("c"), Bn("+", call("length", L("c")), I(1))), val(rng))]
         typ = rng.choice(["arr", None])
     f = ("func", "mut", [(typ, "c")], typ, mut + [("return", L("c"))])
@@ -225,6 +226,10 @@ def by_value_arguments(rng):
             asg(L("alias"), L("orig")), asg(ix(L("alias"), I(1)), Sx("via alias")), pr(L("orig")), pr(L("alias"))]
     if rng.random() < 0.4:
         main = [asg(O("orig"), a), asg(O("copy"), O("orig")), asg(ix(O("copy"), I(1)), Sx("changed")), ("dump", None)] + main
+    if rng.random() < 0.4:
+        # a local taken from an out-of-stream variable (and the reverse) is a copy as well
+        main += [asg(O("seen"), a), asg(L("snapshot"), O("seen")), asg(ix(L("snapshot"), I(1)), Sx("local copy")), asg(O("back"), L("snapshot")),
+                 asg(ix(L("snapshot"), I(2)), Sx("after")), ("dump", None), pr(L("snapshot"))]
     return {"runs": [(P([f, s, ("end", main)]), [])]}
 
 
@@ -236,26 +241,49 @@ def oosvars_persist_and_private(rng):
             ("end", [("emitf", ["count"])])])
     single = P([opa("+", O("sum"), F(fld)), asg(ix(O("last"), F("a")), F("i")), asg(F("running"), O("sum")),
                 ("end", [("dump", None), ("emit", "emit", False, [O("sum")], [])])])
-    return {"runs": [({"chain": [p1, p2]}, recs), (single, recs)]}
+    # the same privacy between put and filter, in both orders: each keeps its own @count / @sum; the filter's decisions
+    # depend on its own counter only
+    k = rng.randint(1, 4)
+    f_after = P([opa("+", O("count"), I(1)), asg(F("fc"), O("count")), asg(F("fsum"), call("typeof", O("sum"))),
+                 ("bare", Bn("!=", Bn("%", O("count"), I(k + 1)), I(0)))], verb="filter", flags=["-x"] if rng.random() < 0.3 else [])
+    f_before = P([opa("+", O("sum"), I(100)), opa("+", O("count"), I(7)), ("bare", Bn(rng.choice(["<", ">="]), O("count"), I(7 * k + 1)))], verb="filter")
+    return {"runs": [({"chain": [p1, p2]}, recs), (single, recs), ({"chain": [p1, f_after]}, recs), ({"chain": [f_before, p2]}, recs)]}
 
 
 def field_positions(rng):
-    recs = G.gen_records(rng, rng.randint(1, 4), hetero=rng.random() < 0.3)
+    wide = rng.random() < 0.5
+    recs = G.gen_records(rng, rng.randint(1, 4), hetero=rng.random() < 0.3, wide=wide)
     stmts = []
-    for _ in range(rng.randint(2, 5)):
+    old_names = ["x", "a", "i", "b", "y"] + (["w0", "w3", "w4", "w5"] if wide else [])
+    for _ in range(rng.randint(2, 5) + (2 if wide else 0)):
         k = rng.random()
         if k < 0.35:
-            stmts.append(asg(F(rng.choice(["x", "a", "i", "b", "y"])), val(rng)))
+            stmts.append(asg(F(rng.choice(old_names)), val(rng)))
         elif k < 0.6:
-            stmts.append(asg(F(rng.choice(["new1", "new2", "zz"])), val(rng)))
+            stmts.append(asg(F(rng.choice(["new1", "new2", "zz", "new3"])), val(rng)))
         elif k < 0.75:
-            stmts.append(("unset", [F(rng.choice(["x", "a", "new1", "b"]))]))
+            stmts.append(("unset", [F(rng.choice(["x", "a", "new1", "b"] + (["w1", "w4", "new2"] if wide else [])))]))
         elif k < 0.9:
             stmts.append(asg(("fieldx", Bn(".", Sx("c_"), F("a"))), ("ctx", "NF")))
         else:
             stmts.append(asg(F("nf"), ("ctx", "NF")))
-    kind = rng.choice(["plain", "srec", "loopcopy", "posname"])
-    if kind == "srec":
+    kind = rng.choice(["plain", "srec", "loopcopy", "posname", "localcopy"])
+    if kind == "localcopy":
+        # the same operations on a map-valued local / oosvar copy of the record, then written back
+        m = rng.choice([L("m"), O("m")])
+        stmts.append(asg(m, ("srec",)))
+        for _ in range(rng.randint(2, 5)):
+            k = rng.random()
+            if k < 0.4:
+                stmts.append(asg(ix(m, Sx(rng.choice(old_names + ["new1", "n5", "n6", "n7"]))), val(rng)))
+            elif k < 0.7:
+                stmts.append(("unset", [ix(m, Sx(rng.choice(old_names + ["new1", "n5"])))]))
+            else:
+                stmts.append(pr(call("haskey", m, Sx(rng.choice(old_names + ["n5", "n6"]))), call("length", m), ix(m, Sx(rng.choice(old_names)))))
+        stmts.append(pr(call("joink", m, Sx(","))))
+        stmts.append(asg(("srec",), rng.choice([m, call("mapdiff", m, ("map", [(Sx("a"), I(0))])), call("mapsum", ("map", [(Sx("first"), I(1))]), m)])))
+        stmts.append(asg(F("after"), ("ctx", "NF")))
+    elif kind == "srec":
         stmts.append(asg(("srec",), rng.choice([
             ("map", [(Sx("z"), I(1)), (Sx("a"), F("a")), (Sx("gone"), F("nosuch")), (Sx("i"), F("i"))]),
             call("mapsum", ("map", [(Sx("first"), ("ctx", "NR"))]), ("srec",)),
@@ -266,10 +294,18 @@ def field_positions(rng):
                       [asg(("fieldx", Bn(".", L("k"), Sx("_copy"))), L("v")), ("unset", [F("b")]), asg(F("i"), I(1000)),
                        pr(L("k"), L("v"), ("ctx", "NF"))]))
     elif kind == "posname":
-        n = rng.randint(1, 6)
+        top = 6 if not wide else 14
+        n = rng.randint(1, top)
         stmts.append(asg(("posname", I(n)), Sx(rng.choice(["renamed", "R"]))))
-        stmts.append(asg(("posval", I(rng.randint(1, 6))), val(rng)))
-        stmts.append(pr(("posname", I(rng.randint(1, 7))), ("posval", I(rng.randint(1, 7)))))
+        stmts.append(asg(("posval", I(rng.randint(1, top))), val(rng)))
+        stmts.append(pr(("posname", I(rng.randint(1, top + 1))), ("posval", I(rng.randint(1, top + 1)))))
+        if rng.random() < 0.5:
+            stmts.append(asg(F(rng.choice(["renamed", "R", "new3"])), val(rng)))
+            stmts.append(pr(call("typeof", F("renamed")), call("typeof", F("R")), ("ctx", "NF")))
+    # what a lookup by name finds afterwards, for names that were assigned, removed, renamed or never there
+    probe = rng.sample(old_names + ["new1", "new2", "zz", "w1", "nosuch"], 5)
+    stmts.append(pr(*[call("typeof", F(nm)) for nm in probe]))
+    stmts.append(pr(*[call("haskey", ("srec",), Sx(nm)) for nm in probe]))
     return {"runs": [(P(stmts), recs)]}
 
 
@@ -552,6 +588,255 @@ def loop_copy_semantics(rng):
     return {"runs": [(P([("end", [asg(base, m), loop, pr(base)])]), [])], "sig": {"over": over}}
 
 
+# ---- loops over collections whose elements are themselves maps / arrays ------------------------------------------
+#
+# 'The bound variables are bound to a copy of the sub-map as it was before the loop started' holds for every level of
+# the looped-over collection: an assignment two or three levels deep into an element the loop has not reached yet, an
+# unset there, a replaced / added / removed element or a re-assigned base variable must not change what the loop
+# variables are bound to later, and assignments through the bound variable must not change the collection.
+
+def sub(base, *idx):
+    """base[idx...] with one flat index list (base may itself be an indexed variable)."""
+    if base[0] == "index":
+        return ("index", base[1], list(base[2]) + list(idx))
+    return ("index", base, list(idx))
+
+
+def _third(rng, kind):
+    if kind == "map":
+        return ("map", [(Sx("z"), I(rng.randint(0, 99))), (Sx("q"), I(rng.randint(0, 99)))])
+    return ("arr", [I(rng.randint(0, 99)), I(rng.randint(0, 99))])
+
+
+def _nested_elem(rng, inner, third):
+    """One element of the looped-over collection: a map {"w":..,"s":..[,"d": third level]} or an array [.., ..[, third level]]."""
+    a, b = I(rng.randint(0, 99)), I(rng.randint(0, 99))
+    if inner == "map":
+        items = [(Sx("w"), a), (Sx("s"), b)]
+        if third:
+            items.insert(rng.randint(0, 2), (Sx("d"), _third(rng, third)))
+        return ("map", items)
+    return ("arr", [a, b] + ([_third(rng, third)] if third else []))
+
+
+def _inner_paths(rng, inner, third):
+    """Index paths (below one element) that exist: [(path, is_third_level)]."""
+    if inner == "map":
+        out = [([Sx("w")], False), ([Sx("s")], False)]
+        if third:
+            out += [([Sx("d"), Sx("z") if third == "map" else I(rng.choice([1, 2, -1]))], True)] * 2
+    else:
+        out = [([I(1)], False), ([I(2)], False), ([I(-2) if not third else I(-3)], False)]
+        if third:
+            out += [([I(3), Sx("q") if third == "map" else I(rng.choice([1, 2, -1]))], True)] * 2
+    return out
+
+
+def _deep_mutation(rng, base, okey, inner, third, nkeys, outer):
+    """One statement that changes the looped-over collection `base` at/below the element with outer index `okey`."""
+    path, _ = rng.choice(_inner_paths(rng, inner, third))
+    k = rng.random()
+    if k < 0.34:
+        return asg(sub(base, okey, *path), rng.choice([I(rng.randint(100, 999)), Sx(rng.choice(G.STR_POOL)), ("map", [(Sx("deep"), I(1))]), ("arr", [I(7)])]))
+    if k < 0.46:
+        return opa(rng.choice(["+", "*", "."]), sub(base, okey, *path), I(rng.randint(2, 9)))
+    if k < 0.58:
+        if inner == "map":
+            return ("unset", [sub(base, okey, *path)])
+        return ("unset", [sub(base, okey, I(rng.choice([1, 2])))])
+    if k < 0.68:
+        # a new key inside the element (maps) / an appended slot (arrays)
+        if inner == "map":
+            return asg(sub(base, okey, Sx("added")), val(rng))
+        return asg(sub(base, okey, Bn("+", call("length", sub(base, okey)), I(1))), val(rng))
+    if k < 0.80:
+        # the whole element is replaced
+        return asg(sub(base, okey), rng.choice([val(rng), _nested_elem(rng, inner, third), ("map", []), ("arr", [])]))
+    if k < 0.88:
+        return ("unset", [sub(base, okey)])
+    if k < 0.95:
+        # a new element
+        if outer == "map":
+            return asg(sub(base, Sx("fresh")), _nested_elem(rng, inner, third))
+        return asg(sub(base, Bn("+", call("length", base), I(1))), _nested_elem(rng, inner, third))
+    return asg(base, rng.choice([("map", []), ("map", [(Sx("only"), _nested_elem(rng, inner, third))])]))
+
+
+def _nested_loop_program(rng, base, form):
+    """-> (init statements, loop statement, statements after the loop).  The body counts iterations in `cnt`; at chosen
+    iterations it changes elements (mostly ones that come later in iteration order), and every iteration prints the
+    bound variables."""
+    outer = "arr" if form == "for1arr" else rng.choice(["map", "map", "arr"]) if form in ("for2", "for1") else "map"
+    inner = "map" if form.startswith("formulti") else rng.choice(["map", "map", "arr"])
+    third = rng.choice([None, "map", "arr"]) if form != "formulti3" else "map"
+    n = rng.randint(2, 5)
+    if outer == "map":
+        okeys = [Sx(s) for s in rng.sample(G.KEY_POOL, n)] if rng.random() < 0.7 else [I(v) for v in rng.sample(range(1, 9), n)]
+        lit = ("map", [(ok, _nested_elem(rng, inner, third)) for ok in okeys])
+    else:
+        okeys = [I(i + 1) for i in range(n)]
+        lit = ("arr", [_nested_elem(rng, inner, third) for _ in okeys])
+    init = [asg(base, lit)] if base[0] != "index" else [asg(base[1], ("map", [(Sx("other"), I(1))])), asg(base, lit)]
+    nmut = rng.choice([1, 1, 2, 3])
+    body = [opa("+", L("cnt"), I(1))]
+    for _ in range(nmut):
+        at = rng.randint(1, n)            # iteration (1-up) at which the change happens
+        if at < n and rng.random() < 0.7:
+            tgt = okeys[rng.randint(at, n - 1)]                     # an element the loop has not reached yet
+        else:
+            tgt = rng.choice(okeys)
+        if outer == "arr" and rng.random() < 0.15:
+            tgt = I(-1)
+        m = _deep_mutation(rng, base, tgt, inner, third, n, outer)
+        if rng.random() < 0.2:
+            body.append(("if", [(Bn(">=", L("cnt"), I(at)), [m])], None))
+        else:
+            body.append(("if", [(Bn("==", L("cnt"), I(at)), [m])], None))
+    if form in ("for2", "for1arr"):
+        v = "v" if form == "for2" else "e"
+        if rng.random() < 0.35:
+            # writing through the bound variable must not reach the collection
+            path, _ = rng.choice(_inner_paths(rng, inner, third))
+            body.append(asg(sub(L(v), *path), Sx("via loop variable")))
+    if form == "for2":
+        body.append(pr(L("cnt"), L("k")))
+        body.append(pr(L("v")))
+        loop = ("for2", (None, "k"), (None, "v"), base, body)
+    elif form == "for1arr":
+        body.append(pr(L("cnt")))
+        body.append(pr(L("e")))
+        loop = ("for1", (None, "e"), base, body)
+    elif form == "for1":
+        # single-variable loop over a map binds the key; over an array the element
+        body.append(pr(L("cnt"), call("typeof", L("k"))))
+        body.append(pr(L("k")))
+        loop = ("for1", (None, "k"), base, body)
+    elif form == "formulti2":
+        body.append(pr(L("cnt"), L("k1"), L("k2")))
+        body.append(pr(L("v")))
+        loop = ("formulti", ["k1", "k2"], "v", base, body)
+    else:
+        body.append(pr(L("cnt"), L("k1"), L("k2"), L("k3")))
+        body.append(pr(L("v")))
+        loop = ("formulti", ["k1", "k2", "k3"], "v", base, body)
+    return init, loop, [pr(Sx("after"), L("cnt")), pr(base if base[0] != "index" else base[1])]
+
+
+def _loop_forms(rng):
+    return rng.choice(["for2", "for2", "for2", "for1arr", "for1arr", "for1", "formulti2", "formulti2", "formulti3"])
+
+
+def loop_snapshot_nested_local(rng):
+    """loops over a local (or a parameter) whose elements are maps / arrays; the body changes elements in place."""
+    runs = []
+    for _ in range(3):
+        form = _loop_forms(rng)
+        base = rng.choice([L("c"), L("c"), sub(L("c"), Sx("sub"))])
+        init, loop, post = _nested_loop_program(rng, base, form)
+        where_ = rng.choice(["end", "func", "subr", "block"])
+        if where_ == "func" and base[0] == "local":
+            f = ("func", "walk", [(rng.choice([None, "map" if init[0][2][0] == "map" else "arr"]), "c")], None,
+                 [asg(L("cnt"), I(0)), loop] + post + [("return", L("c"))])
+            prog = [f, ("end", [asg(L("orig"), init[0][2]), asg(L("res"), ("ucall", "walk", [L("orig")])), pr(Sx("caller")), pr(L("orig")), pr(L("res"))])]
+        elif where_ == "subr" and base[0] == "local":
+            s = ("subr", "walk", [(None, "c")], [asg(L("cnt"), I(0)), loop] + post)
+            prog = [s, ("end", [asg(L("orig"), init[0][2]), ("call", "walk", [L("orig")]), pr(Sx("caller")), pr(L("orig"))])]
+        elif where_ == "block":
+            prog = [("end", init + [asg(L("cnt"), I(0))] + block_kind(rng, None, [loop]) + post)]
+        else:
+            prog = [("end", init + [asg(L("cnt"), I(0)), loop] + post)]
+        runs.append((P(prog), []))
+    return {"runs": runs}
+
+
+def loop_snapshot_nested_oosvar(rng):
+    """the same over out-of-stream variables (also `for (... in @c["sub"])` and all-oosvars multi-key loops)."""
+    runs = []
+    for _ in range(3):
+        form = _loop_forms(rng)
+        base = rng.choice([O("c"), O("c"), sub(O("c"), Sx("sub"))])
+        init, loop, post = _nested_loop_program(rng, base, form)
+        tail = [("dump", None)] if rng.random() < 0.5 else []
+        if rng.random() < 0.5:
+            prog = [("end", init + [asg(L("cnt"), I(0)), loop] + post + tail)]
+            runs.append((P(prog, flags=["-q"] if rng.random() < 0.5 else []), []))
+        else:
+            # the collection is set up in a begin block and walked (and changed) once per record
+            prog = [("begin", init), asg(L("cnt"), I(0)), loop] + post + [("end", tail)]
+            runs.append((P(prog, flags=["-q"] if rng.random() < 0.5 else []), G.gen_records(rng, rng.randint(1, 3), hetero=False)))
+    return {"runs": runs}
+
+
+def loop_snapshot_accumulated(rng):
+    """the collection is accumulated from the records (`@c[$i] = {"w": $x, ...}` / `@c[$a][$b] = {...}`), the end block walks
+    it while updating entries in place (the usual 'mark / adjust the other rows while iterating' idiom)."""
+    runs = []
+    for _ in range(3):
+        recs = G.gen_records(rng, rng.randint(2, 7), hetero=False)
+        two = rng.random() < 0.4
+        elem = ("map", [(Sx("w"), F("x")), (Sx("seen"), I(0)), (Sx("tags"), ("arr", [F("y"), F("a")]))])
+        acc = asg(ix(O("c"), F("a"), F("i")) if two else ix(O("c"), F("i")), elem)
+        tgt = I(rng.randint(1, len(recs)))
+        tgt_path = [Sx(recs[tgt[1] - 1]["a"]), tgt] if two else [tgt]
+        mut = rng.choice([asg(ix(O("c"), *tgt_path, Sx("w")), I(700)), opa("+", ix(O("c"), *tgt_path, Sx("w")), I(1000)),
+                          asg(ix(O("c"), *tgt_path, Sx("tags"), I(1)), Sx("T")), ("unset", [ix(O("c"), *tgt_path, Sx("seen"))]),
+                          asg(ix(O("c"), *tgt_path, Sx("tags"), I(3)), Sx("appended")),
+                          asg(ix(O("c"), *tgt_path), ("map", [(Sx("w"), I(-1)), (Sx("seen"), I(5)), (Sx("tags"), ("arr", []))]))])
+        at = rng.randint(1, max(1, tgt[1] - 1)) if rng.random() < 0.7 else rng.randint(1, len(recs))
+        body = [opa("+", L("cnt"), I(1)), ("if", [(Bn("==", L("cnt"), I(at)), [mut])], None)]
+        if two:
+            body += [asg(ix(O("c"), L("k1"), L("k2"), Sx("seen")), I(1)), pr(L("cnt"), L("k1"), L("k2")), pr(L("v"))]
+            loop = ("formulti", ["k1", "k2"], "v", O("c"), body)
+            if rng.random() < 0.5:
+                inner_body = [opa("+", L("cnt"), I(1)), ("if", [(Bn("==", L("cnt"), I(at)), [mut])], None),
+                              asg(ix(O("c"), L("k1"), L("k2"), Sx("seen")), I(1)), pr(L("cnt"), L("k1"), L("k2")), pr(L("v"))]
+                loop = ("for2", (None, "k1"), (None, "m"), O("c"), [("for2", (None, "k2"), (None, "v"), L("m"), inner_body)])
+        else:
+            body += [asg(ix(O("c"), L("k"), Sx("seen")), I(1)), pr(L("cnt"), L("k")), pr(L("v"))]
+            loop = ("for2", (None, "k"), (None, "v"), O("c"), body)
+        names = [Sx("a"), Sx("id")] if two else [Sx("id")]
+        tail = rng.choice([[("emit", "emit", False, [O("c")], names[:rng.randint(0, len(names))])], [("dump", None)], [pr(O("c"))]])
+        prog = [acc, ("end", [asg(L("cnt"), I(0)), loop] + tail)]
+        runs.append((P(prog, flags=["-q"]), recs))
+    return {"runs": runs}
+
+
+def deep_nesting_many_locals(rng):
+    """block scoping beyond the interpreter's pre-sized structures: 6-10 nested blocks, each declaring two locals and
+    updating one of an enclosing block; 11-18 locals in one scope (also in a recursive function body)."""
+    if rng.random() < 0.5:
+        depth = rng.randint(6, 10)
+        upd = rng.randint(1, depth - 1)
+        body = [pr(Sx("innermost"), *[L("p%d" % l) for l in range(1, depth + 1)][-6:]),
+                asg(L("p%d" % upd), I(1000 + upd)), asg(L("q%d" % rng.randint(1, depth)), I(2000))]
+        for lvl in range(depth, 0, -1):
+            pre = [("decl", rng.choice(["var", "int", "num"]), "p%d" % lvl, I(lvl * 10)),
+                   asg(L("q%d" % lvl), Bn("+", L("p%d" % (lvl - 1)), I(1)) if lvl > 1 else I(1))]
+            post = [pr(Sx("level%d" % lvl), L("p%d" % lvl), L("q%d" % lvl), call("typeof", L("p%d" % (lvl + 1))), call("typeof", L("q%d" % (lvl + 1))))]
+            body = block_kind(rng, None, pre + body + post)
+        stmts = body + [pr(Sx("top"), call("typeof", L("p1")), call("typeof", L("q1")))]
+        p, recs = where(rng, stmts)
+        return {"runs": [(p, recs)]}
+    n = rng.randint(11, 18)
+    decls = []
+    for i in range(n):
+        e = I(i) if i < 2 else Bn(rng.choice(["+", "-"]), L("v%d" % rng.randint(0, i - 1)), I(i))
+        decls.append(("decl", rng.choice(["var", "int", "num"]), "v%d" % i, e) if rng.random() < 0.6 else asg(L("v%d" % i), e))
+    use = [pr(*[L("v%d" % i) for i in range(k, min(n, k + 6))]) for k in range(0, n, 6)]
+    inner = block_kind(rng, None, [("decl", "var", "v%d" % rng.randint(0, n - 1), Sx("shadow")), asg(L("v%d" % rng.randint(0, n - 1)), I(-1)),
+                                   asg(L("extra"), I(5)), pr(*[L("v%d" % i) for i in range(max(0, n - 6), n)])])
+    if rng.random() < 0.5:
+        stmts = decls + use + inner + use + [pr(call("typeof", L("extra")))]
+        p, recs = where(rng, stmts)
+        return {"runs": [(p, recs)]}
+    # the same in a recursive function: every activation has its own n locals
+    fbody = [("if", [(Bn("<=", L("d"), I(0)), [("return", I(0))])], None)] + decls + \
+            [asg(L("v1"), L("d")), asg(L("below"), ("ucall", "many", [Bn("-", L("d"), I(1))]))] + use + inner + \
+            [("return", Bn("+", L("v1"), L("below")))]
+    f = ("func", "many", [(None, "d")], None, fbody)
+    return {"runs": [(P([f, ("end", [pr(("ucall", "many", [I(rng.randint(1, 4))]))])]), [])]}
+
+
 def for_typed_bind_variables(rng):
     """reference-dsl-variables.md: `for (str k, v in $*)` - 'k is explicitly str; v is implicitly var'."""
     m = ("map", [(Sx(k), I(i)) for i, k in enumerate(rng.sample(G.KEY_POOL, 2))])
@@ -585,6 +870,52 @@ def unset_shapes(rng):
         stmts += [asg(L("again"), val(rng)), ("unset", [L("again")]), asg(ix(L("again"), k), val(rng)), pr(L("again")),
                   pr(call("typeof", O("nosuch")), call("typeof", Sx("")), Bn("==", I(1), I(1)))]
     return {"runs": [(P(stmts), recs)]}
+
+
+def unset_local_scoping(rng):
+    """`unset` of a local clears its value, not its binding: the name stays bound in the scope that holds it (a later
+    undeclared assignment from a nested block updates that binding, a shadowing `var` keeps shadowing) and keeps its
+    declared type (a later assignment of another type, or a second declaration in that scope, must fail)."""
+    x, y = names(rng, 2)
+    ty = rng.choice(["int", "str", "bool", "map"])
+    v = [val(rng, ty) for _ in range(4)]
+    kind = rng.choice(["nested_reassign", "nested_reassign", "shadow_unset", "shadow_unset", "typed_wrong", "typed_ok", "redeclare", "param"])
+
+    def nest(body, depth):
+        for _ in range(depth):
+            body = block_kind(rng, None, body)
+        return body
+    depth = rng.choice([1, 1, 2, 3])
+    if kind == "nested_reassign":
+        outer = rng.choice([asg(L(x), v[0]), ("decl", rng.choice(TYPES_FOR[ty]), x, v[0])])
+        inner = [("unset", [L(x)]), pr(Sx("inner after unset"), call("typeof", L(x)))]
+        if rng.random() < 0.8:
+            inner += [asg(L(x), v[1]), pr(Sx("inner after reassign"), L(x))]
+        stmts = [outer] + nest(inner, depth) + [pr(Sx("outer"), call("typeof", L(x))), pr(L(x)) if ty != "map" else pr(call("length", L(x)))]
+        if rng.random() < 0.5:
+            stmts += [asg(L(x), v[2]), pr(Sx("outer again"), L(x))]
+    elif kind == "shadow_unset":
+        inner = [("decl", "var", x, v[1]), ("unset", [L(x)]), pr(Sx("shadow after unset"), call("typeof", L(x)))]
+        if rng.random() < 0.7:
+            inner += nest([asg(L(x), v[2]), pr(Sx("deep"), L(x))], rng.choice([0, 1, 2])) + [pr(Sx("shadow"), L(x))]
+        stmts = [asg(L(x), v[0])] + nest(inner, depth) + [pr(Sx("outer"), L(x))]
+    elif kind == "typed_wrong":
+        kw = rng.choice([t for t in TYPES_FOR[ty] if t != "var"])
+        stmts = [("decl", kw, x, v[0]), pr(Sx("start"))] + nest([("unset", [L(x)])], rng.choice([0, 1, 2])) + \
+                nest([asg(L(x), wrong_val(rng, ty)), pr(Sx("unreachable"))], rng.choice([0, 1, 2]))
+    elif kind == "typed_ok":
+        kw = rng.choice(TYPES_FOR[ty])
+        stmts = [("decl", kw, x, v[0])] + nest([("unset", [L(x)])], rng.choice([0, 1, 2])) + nest([asg(L(x), v[1])], rng.choice([0, 1, 2])) + \
+                [pr(Sx("outer"), call("typeof", L(x))), pr(L(x)) if ty != "map" else pr(call("length", L(x)))]
+    elif kind == "redeclare":
+        stmts = [("decl", rng.choice(TYPES_FOR[ty]), x, v[0]), pr(Sx("start")), ("unset", [L(x)]), ("decl", rng.choice(TYPES_FOR[ty]), x, v[1]), pr(Sx("unreachable"))]
+    else:
+        # a parameter unset in a nested block of the body and assigned again
+        body = nest([("unset", [L("a")]), asg(L("a"), v[1])], depth) + [pr(Sx("in f"), call("typeof", L("a"))), ("return", L("a"))]
+        f = ("func", "uf", [(rng.choice([None] + TYPES_FOR[ty]), "a")], None, body)
+        return {"runs": [(P([f, ("end", [asg(L(y), ("ucall", "uf", [v[0]])), pr(Sx("result"), call("typeof", L(y))), pr(L(y)) if ty != "map" else pr(call("length", L(y)))])]), [])]}
+    p, recs = where(rng, stmts)
+    return {"runs": [(p, recs)]}
 
 
 def begin_end_order(rng):
@@ -717,13 +1048,17 @@ def parameter_redeclaration(rng):
 
 def positional_rename_then_access(rng):
     """after `$[[n]] = "new"` the field is known by its new name only (reference-dsl-variables.md, positional field names)."""
-    recs = G.gen_records(rng, rng.randint(1, 3), hetero=False)
-    n = rng.randint(1, 5)
+    recs = G.gen_records(rng, rng.randint(1, 3), hetero=False, wide=rng.random() < 0.5)
+    n = rng.randint(1, min(len(r) for r in recs))
     old = list(recs[0].keys())[n - 1]
     same_order = all(list(r.keys()) == list(recs[0].keys()) for r in recs)
     if not same_order:
         recs = recs[:1]
-    stmts = [asg(("posname", I(n)), Sx("renamed"))]
+    stmts = []
+    if rng.random() < 0.6:
+        # a lookup by name before the rename (a record with a key index has it built by now)
+        stmts.append(rng.choice([asg(F("pre"), call("typeof", F(old))), asg(L("before"), F(rng.choice(["a", "i", old]))), asg(F(old), F(old))]))
+    stmts.append(asg(("posname", I(n)), Sx("renamed")))
     choices = [asg(F("copy_old"), F(old)), asg(F("copy_new"), F("renamed")), asg(F(old), I(77)), ("unset", [F(old)]),
                pr(call("typeof", F(old)), call("typeof", F("renamed"))), asg(F("renamed"), Sx("v")), asg(F("nf"), ("ctx", "NF")),
                pr(call("haskey", ("srec",), Sx(old)), call("haskey", ("srec",), Sx("renamed")))]
@@ -864,4 +1199,6 @@ SHAPES = {f.__name__: f for f in [
     string_slices, emit_family, emit_other, filter_shapes, hof_shapes, loop_copy_semantics, for_typed_bind_variables,
     for_parenthesized_single_key, unset_shapes, begin_end_order, positional_names, break_continue_nested, absent_rules,
     op_assignments, presets, dot_and_types, map_literals_and_copies, parameter_redeclaration,
+    loop_snapshot_nested_local, loop_snapshot_nested_oosvar, loop_snapshot_accumulated, deep_nesting_many_locals,
+    unset_local_scoping,
     positional_rename_then_access, self_referential_indexed_assignment, nested_recursion, chain_private_functions]}
